@@ -39,6 +39,35 @@ type factCtx struct {
 	info *types.Info
 	body *ast.BlockStmt // enclosing function body
 	f    *Facts
+	// notBoth: pairs (X, Y) with ¬(X ∧ Y) known; oneOf: pairs with X ∨ Y known. Resolved against
+	// the boolean facts at the end: X true gives Y false, X false gives Y true.
+	notBoth [][2]ast.Expr
+	oneOf   [][2]ast.Expr
+	posOf   []token.Pos
+}
+
+// resolvePairs draws the consequences of the recorded ¬(X∧Y) and X∨Y facts.
+func (c *factCtx) resolvePairs() {
+	for round := 0; round < 3; round++ {
+		for _, p := range c.notBoth {
+			x, y := core.ExprStr(core.Unparen(p[0])), core.ExprStr(core.Unparen(p[1]))
+			if c.f.True[x] && !c.f.False[y] {
+				c.assume(p[1], false, token.NoPos)
+			}
+			if c.f.True[y] && !c.f.False[x] {
+				c.assume(p[0], false, token.NoPos)
+			}
+		}
+		for _, p := range c.oneOf {
+			x, y := core.ExprStr(core.Unparen(p[0])), core.ExprStr(core.Unparen(p[1]))
+			if c.f.False[x] && !c.f.True[y] {
+				c.assume(p[1], true, token.NoPos)
+			}
+			if c.f.False[y] && !c.f.True[x] {
+				c.assume(p[0], true, token.NoPos)
+			}
+		}
+	}
 }
 
 func (c *factCtx) setMin(e string, n int, at token.Pos) {
@@ -81,12 +110,16 @@ func (c *factCtx) assume(cond ast.Expr, truth bool, at token.Pos) {
 			if truth {
 				c.assume(x.X, true, at)
 				c.assume(x.Y, true, at)
+			} else {
+				c.notBoth = append(c.notBoth, [2]ast.Expr{x.X, x.Y})
 			}
 			return
 		case token.LOR:
 			if !truth {
 				c.assume(x.X, false, at)
 				c.assume(x.Y, false, at)
+			} else {
+				c.oneOf = append(c.oneOf, [2]ast.Expr{x.X, x.Y})
 			}
 			return
 		}
@@ -104,6 +137,11 @@ func (c *factCtx) assume(cond ast.Expr, truth bool, at token.Pos) {
 				if sel, isSel := x.Fun.(*ast.SelectorExpr); isSel {
 					c.setMin(core.ExprStr(sel.X)+"."+field, min, at)
 				}
+			}
+			// a predicate function whose body is `return len(p) > K && …` for one of its parameters:
+			// the call being true says so about the argument
+			if ai, min, ok := lenParamPredicate(c.info, x); ok && ai < len(x.Args) {
+				c.setMin(core.ExprStr(x.Args[ai]), min, at)
 			}
 		}
 	}
@@ -405,6 +443,7 @@ func FactsAt(info *types.Info, body *ast.BlockStmt, target ast.Node) *Facts {
 			}
 		}
 	}
+	c.resolvePairs()
 	return c.f
 }
 
@@ -749,4 +788,80 @@ func lenPredicate(info *types.Info, call *ast.CallExpr) (field string, min int, 
 		}
 	}
 	return "", 0, false
+}
+
+// lenParamPredicate: the callee is a module function whose body is one return of a conjunction that
+// contains `len(<parameter i>) > K` (or >= K, != 0); returns i and the implied minimum length.
+func lenParamPredicate(info *types.Info, call *ast.CallExpr) (int, int, bool) {
+	if core.Current == nil {
+		return 0, 0, false
+	}
+	fn := core.CalleeFunc(info, call)
+	if fn == nil || fn.Pkg() == nil || !core.IsSource(fn.Pkg().Path()) {
+		return 0, 0, false
+	}
+	pk := core.Current.ByPkg[fn.Pkg().Path()]
+	if pk == nil {
+		return 0, 0, false
+	}
+	fd := core.DeclOf(pk, fn.Origin())
+	if fd == nil || fd.Body == nil || len(fd.Body.List) != 1 || fd.Type.Params == nil {
+		return 0, 0, false
+	}
+	ret, isRet := fd.Body.List[0].(*ast.ReturnStmt)
+	if !isRet || len(ret.Results) != 1 {
+		return 0, 0, false
+	}
+	params := map[string]int{}
+	i := 0
+	for _, p := range fd.Type.Params.List {
+		for _, nm := range p.Names {
+			params[nm.Name] = i
+			i++
+		}
+	}
+	var conj []ast.Expr
+	var split func(e ast.Expr)
+	split = func(e ast.Expr) {
+		if b, ok := core.Unparen(e).(*ast.BinaryExpr); ok && b.Op == token.LAND {
+			split(b.X)
+			split(b.Y)
+			return
+		}
+		conj = append(conj, core.Unparen(e))
+	}
+	split(ret.Results[0])
+	for _, e := range conj {
+		b, ok := e.(*ast.BinaryExpr)
+		if !ok {
+			continue
+		}
+		le, isLen := lenArg(pk.TypesInfo, b.X)
+		if !isLen {
+			continue
+		}
+		id, isID := core.Unparen(le).(*ast.Ident)
+		if !isID {
+			continue
+		}
+		ai, isParam := params[id.Name]
+		if !isParam {
+			continue
+		}
+		k, isC := core.ConstInt(pk.TypesInfo, b.Y)
+		if !isC {
+			continue
+		}
+		switch b.Op {
+		case token.GTR:
+			return ai, int(k) + 1, true
+		case token.GEQ:
+			return ai, int(k), true
+		case token.NEQ:
+			if k == 0 {
+				return ai, 1, true
+			}
+		}
+	}
+	return 0, 0, false
 }
